@@ -145,7 +145,7 @@ class Interp:
             r = self.solver.check()
         self.stats.solver_time += time.time() - t
         if r == z3.unknown:
-            raise Unsupported("solver returned unknown: " + self.solver.reason_unknown())
+            raise Inconclusive("solver returned unknown: " + self.solver.reason_unknown())
         res = r == z3.sat
         self._feas_cache[key] = res
         return res
